@@ -121,13 +121,21 @@ structure Quirks where
   /-- `get_pending_range` with a consumer filter walks the requested range of `entries_by_id` and keeps the
       consumer's rows (pinned tree: it walks the consumer's vector and ignores the range) -/
   filterFix : Bool
+  /-- a multi-stream XREADGROUP validates every (stream, group, id) before delivering anything (pinned tree: the
+      streams named before the failing one have already been delivered when the error is returned) -/
+  multiFix : Bool
+  /-- group / consumer names that are not valid UTF-8 are refused (pinned tree: `String::from_utf8_lossy` makes
+      distinct binary names the same name) -/
+  nameFix : Bool
+  /-- an explicit id equal to `StreamId::max()` is not `>` (pinned tree: it is the internal marker of `>`) -/
+  maxIdFix : Bool
 deriving DecidableEq, Repr
 
-def Quirks.pinned : Quirks := ⟨false, false, false, false, false, false⟩
-def Quirks.fixed : Quirks := ⟨true, true, true, true, true, true⟩
+def Quirks.pinned : Quirks := ⟨false, false, false, false, false, false, false, false, false⟩
+def Quirks.fixed : Quirks := ⟨true, true, true, true, true, true, true, true, true⟩
 
 inductive Reply
-  | ok | busy | nogroup | err | panic
+  | ok | busy | nogroup | err | panic | refused
   | num (n : Nat)
   | ids (l : List Id)
   | next (n : Id) (l : List Id)
@@ -357,6 +365,27 @@ def autoClaim (stream : List Id) (g : Group) (c : Name) (elig : Bool) (start : I
     | some l => (l.1, (l.2 + 1) % 18446744073709551616)
     | none => (0, 0)
   (r.1, .next nxt (r.2.filter (fun x => stream.contains x)))
+
+/-! #### handler-level behaviour around `read_group` (commands/consumer_groups.rs) -/
+
+/-- `StreamId::max()`, which `handle_xreadgroup` passes to `read_group` for `>` -/
+def maxId : Id := (18446744073709551615, 18446744073709551615)
+
+/-- how the handler hands an explicit id to `read_group`: the id equal to the marker IS `>` on the pinned tree;
+    the repaired handler returns the (empty) history after it -/
+def explicitFrom (q : Quirks) (a : Id) : Option Id := if !q.maxIdFix && a = maxId then none else some a
+
+/-- XREADGROUP over two streams, `>` on this one, whose SECOND stream fails (NOGROUP / wrong type / bad id): the
+    reply is the error; the pinned handler has delivered this stream before it notices -/
+def multiReadFailing (q : Quirks) (stream : List Id) (g : Group) (c : Name) (count : Option Nat) (noack : Bool) :
+    Group × Reply :=
+  if q.multiFix then (g, .refused) else ((readGroup q stream g c none count noack).1, .refused)
+
+/-- the name the handlers store for a transported name: 100 / 101 stand for the distinct byte strings `g\xff` / `g\xfe`
+    (`c\xff` / `c\xfe`), which `String::from_utf8_lossy` both turns into `g\u{FFFD}` — transported back as 199 -/
+def lossyName (n : Name) : Name := if n = 100 ∨ n = 101 then 199 else n
+
+def isBinaryName (n : Name) : Bool := n = 100 || n = 101
 
 /-- One operation on an existing group, given the ids currently in the stream. -/
 def gstep (q : Quirks) (stream : List Id) (g : Group) : GOp → Group × Reply
